@@ -64,6 +64,9 @@ _ds("C08", "All small wait/signal programs; oracle: at every successful return s
 _ds("C15", "Merge programs on the three custom data source types and three target kinds; oracle: sum / union / membership+last-value conservation, no zero delivery, handler intervals disjoint, "
     "sentinel eventually delivered (stuck witness otherwise).", "DESIGN.md §4 C15")
 
+_ds("C10", "dispatch_apply on seven queue kinds, n in {0,1,2,3,5}, 1-3 CPUs, nested; oracle: every index in 0..n-1 exactly once and no other, return after every iteration's end, sequential in index order on a "
+    "serial hierarchy, a racing barrier never overlaps an iteration on a concurrent queue.", "DESIGN.md §4 C10")
+
 NOT_YET = {}
 
 def main():
